@@ -30,14 +30,23 @@ func (mp metaPath) FilePath() string {
 }
 
 type metaStore struct {
-	fs          afero.Fs
+	fs afero.Fs
+
+	// objectFs and objectFile locate the stored object a metadata record
+	// describes, so its hash can be recomputed when the record is missing or
+	// stale:
+	objectFs   afero.Fs
+	objectFile func(bucket, object string) string
+
 	modTimeCalc modTimeCalc
 	modTimeRes  time.Duration
 }
 
-func newMetaStore(fs afero.Fs, modTimeCalc modTimeCalc) *metaStore {
+func newMetaStore(fs afero.Fs, objectFs afero.Fs, objectFile func(bucket, object string) string, modTimeCalc modTimeCalc) *metaStore {
 	b := &metaStore{
 		fs:          fs,
+		objectFs:    objectFs,
+		objectFile:  objectFile,
 		modTimeCalc: modTimeCalc,
 		modTimeRes:  -1,
 	}
@@ -97,7 +106,8 @@ func (ms *metaStore) loadMeta(bucket string, object string, size int64, mtime ti
 	if len(meta.Hash) == 0 || meta.Size != size || modDiff < -modRes || modDiff > modRes {
 		meta.Size = size
 		meta.ModTime = mtime
-		meta.Hash, err = hashFile(ms.fs, fullPath)
+		// The hash is that of the object, not of its metadata file:
+		meta.Hash, err = hashFile(ms.objectFs, ms.objectFile(bucket, object))
 		if err != nil {
 			return nil, err
 		}
